@@ -71,6 +71,20 @@ func (vfs *MemFS) searchNode(path string, slMode slMode) (
 	parent = volNode
 
 	for pi.Next() {
+		if parent == volNode {
+			// the walk enters the root directory : it needs search permission on it as on any other directory.
+			volNode.mu.RLock()
+			ok := volNode.checkPermission(avfs.OpenLookup, vfs.User())
+			volNode.mu.RUnlock()
+
+			if !ok {
+				child = nil
+				err = vfs.err.PermDenied
+
+				return
+			}
+		}
+
 		name := pi.Part()
 
 		parent.mu.RLock()
